@@ -2,18 +2,23 @@
 # Control-flow skeleton, its semantics, and `core.is_blocking`
 
 Statements are abstracted to their control skeleton: every test is constant-true, constant-false or
-*unknown*, every `for` iterable is empty, known non-empty or unknown; unknown choices are read from an
-arbitrary oracle stream, so a statement about all oracles is a statement about all valuations of the
-unknown conditions and all iteration counts.  `blocks` mirrors `core.is_blocking` (with
+*unknown* (identified by a label, possibly negated), every `for` iterable is empty, known non-empty or
+unknown; unknown choices are read from an arbitrary oracle stream, so a statement about all oracles is a
+statement about all valuations of the unknown conditions and all iteration counts.  Simple statements carry
+a label; the state records, in order, every simple statement executed and every unknown test evaluated
+(the observable trace).  `blocks` mirrors `core.is_blocking` (with
 `_body_is_blocking` = `blocksL` and `_iter_loop_level_jumps` = `hasBrk` / `hasJmp`).
 -/
 namespace C16
 
-inductive Cond | tt | ff | unk deriving DecidableEq, Repr
+inductive Cond | tt | ff | unk (id : Nat) (neg : Bool) deriving DecidableEq, Repr
 inductive Iter | empty | nonempty | unk deriving DecidableEq, Repr
 
+/-- an observable event: a labelled simple statement executed / a labelled unknown test evaluated -/
+inductive Ev | stmt (l : Nat) | test (id : Nat) deriving DecidableEq, Repr
+
 inductive Stmt where
-  | simple | ret | raise | brk | cont
+  | simple (l : Nat) | ret | raise | brk | cont
   | assertC (c : Cond)
   | ite (c : Cond) (body orelse : List Stmt)
   | whileS (c : Cond) (body : List Stmt)
@@ -28,19 +33,20 @@ abbrev Oracle := Nat → Bool
 
 structure St where
   pos : Nat
-deriving Repr
+  trace : List Ev := []     -- most recent first
+deriving Repr, DecidableEq
 
 def evalCond (ω : Oracle) (c : Cond) (s : St) : Bool × St :=
   match c with
   | .tt => (true, s) | .ff => (false, s)
-  | .unk => (ω s.pos, ⟨s.pos + 1⟩)
+  | .unk id neg => (ω s.pos != neg, ⟨s.pos + 1, .test id :: s.trace⟩)
 
 mutual
 def exec (ω : Oracle) : Nat → Stmt → St → Out × St
   | 0, _, s => (.fuel, s)
   | fuel+1, st, s =>
     match st with
-    | .simple => (.normal, s)
+    | .simple l => (.normal, ⟨s.pos, .stmt l :: s.trace⟩)
     | .ret => (.ret, s) | .raise => (.raise, s) | .brk => (.brk, s) | .cont => (.cont, s)
     | .assertC c => let (b, s') := evalCond ω c s; if b then (.normal, s') else (.raise, s')
     | .ite c b o => let (v, s') := evalCond ω c s; if v then execList ω fuel b s' else execList ω fuel o s'
@@ -65,7 +71,7 @@ def exec (ω : Oracle) : Nat → Stmt → St → Out × St
             | (.brk, s'') => (.normal, s'')
             | r => r
         | .unk =>
-            let (v, s') := evalCond ω .unk s
+            let (v, s') := (ω s.pos, (⟨s.pos + 1, s.trace⟩ : St))
             if v then
               match execList ω fuel b s' with
               | (.normal, s'') => exec ω fuel (.forS .unk b) s''
@@ -117,7 +123,7 @@ def blocks : Par → Stmt → Bool
   | p, .ite c b o =>
       match c with
       | .tt => blocksL p b | .ff => blocksL p o
-      | .unk => blocksL p b && blocksL p o
+      | .unk _ _ => blocksL p b && blocksL p o
   | p, .withS b => blocksL p b
   | _, .whileS c b => c == .tt && !hasBrkL b
   | _, .forS it b => it == .nonempty && firstIter b
